@@ -87,6 +87,12 @@ pub fn read_server_log(sim: &mut Sim) {
         sim.server_log_pos = 0;
         sim.server.world_mut().resource_mut::<DisconnectRequests>().0.clear();
     }
+    let bad = std::mem::take(&mut sim.server.world_mut().resource_mut::<BadPayload>().0);
+    if sim.or.ev_once {
+        if let Some(b) = bad.first() {
+            sim.fail("C05.payload", format!("a client event reached server logic with an altered payload: {b}"));
+        }
+    }
     for (kind, seq, sender, ent) in new {
         *sim.delivered_c.entry(seq).or_default() += 1;
         sim.last_from.insert(sender, seq);
@@ -455,7 +461,7 @@ pub fn check_events_final(sim: &mut Sim) -> Result<(), Fail> {
             }
         }
     }
-    for kind in [CK::Ev, CK::Map, CK::Trig] {
+    for kind in [CK::Ev, CK::Map, CK::Trig, CK::List] {
         let ids: BTreeSet<Entity> = sim.cemits.iter().map(|e| e.sender).collect();
         for id in ids {
             let seqs: Vec<u32> = sim.server.world().resource::<ServerLog>().0.iter().filter(|e| e.0 == kind && e.2 == id).map(|e| e.1).collect();
